@@ -25,6 +25,7 @@ RULE = ("random histories of 5-60 read-only calls (with arguments, repetition, p
 RULE += ("; added after the mutation rounds: targeted two- and three-call sequences (kappa / delta-max / permutant with bool and non-bool flags, pH 0 then region, Omega / Omega string, user alphabets, phospho queries); live objects replaced by their shuffled children; plotting and write_compfile as perturbers; sequences whose raw ratio lies in (1,1.1); the first cases of every shard are judged again at its end")
 RULE += ("; round 6: several threads asking read-only queries, each of objects of its own; repeated isoelectric-point calls on chains where almost only arginine titrates")
 RULE += ("; round 7: overlapping groups in swapped order; sliding-window getters with one window in different orders")
+RULE += ("; round 8: two or three objects built from the same string with different phosphosites, asked the same questions in turn; groupings with a moved border")
 EXHAUSTIVE = {"quick": False, "thorough": False}
 ASSUMPTIONS = [
     "the reference is a fork of a process that has imported localcider and made no call (same interpreter, hash seed)",
